@@ -473,3 +473,66 @@ def discharge(solver, items, assumptions=(), want_model=True, eval_search=16, ch
 def solver_counts(solver):
     return {'issued': solver.n_queries, 'unsat': solver.stats['unsat'], 'sat': solver.stats['sat'],
             'unknown': solver.stats['unknown']}
+
+
+# ---------------------------------------------------------------- accumulation chains
+
+def _find_pred(t, w):
+    """first `acc + k` node met going down an ite tree: returns acc"""
+    stack = [t]
+    seen = 0
+    while stack and seen < 10000:
+        x = stack.pop()
+        seen += 1
+        if not isinstance(x, T.Term):
+            continue
+        if x.op == 'add' and x.w == w and (x.args[0].op == 'const' or x.args[1].op == 'const'):
+            return x.args[1] if x.args[0].op == 'const' else x.args[0]
+        if x.op == 'ite' and x.w == w:
+            stack.append(x.args[2])
+            stack.append(x.args[1])
+    return None
+
+
+def peel_chain(t, w=32, limit=200000):
+    """Decompose an accumulator term built as  acc = cond ? acc + k : acc  (any nesting of ite) repeated many times.
+    -> (base, [(condition term, increment)] newest first); decomposition stops at the first term not of that shape."""
+    steps = []
+    cur = t
+    n = 0
+    while isinstance(cur, T.Term) and n < limit:
+        n += 1
+        if cur.op == 'add' and cur.w == w and cur.args[0].op == 'const':
+            steps.append((1, cur.args[0].val))
+            cur = T._u(cur.args[1])
+            continue
+        if cur.op != 'ite' or cur.w != w:
+            break
+        pred = _find_pred(cur, w)
+        if pred is None:
+            break
+        incs = {}
+        ok = True
+        stack = [(cur, [])]
+        while stack:
+            x, pc = stack.pop()
+            if x is pred:
+                continue
+            if isinstance(x, T.Term) and x.op == 'add' and x.w == w and \
+                    ((x.args[0].op == 'const' and x.args[1] is pred) or (x.args[1].op == 'const' and x.args[0] is pred)):
+                k = x.args[0].val if x.args[0].op == 'const' else x.args[1].val
+                incs.setdefault(k, []).append(T.and_many(pc))
+                continue
+            if isinstance(x, T.Term) and x.op == 'ite' and x.w == w:
+                c, a, b = x.args
+                stack.append((a, pc + [c]))
+                stack.append((b, pc + [T.lnot(c)]))
+                continue
+            ok = False
+            break
+        if not ok or not incs:
+            break
+        for k, conds in sorted(incs.items()):
+            steps.append((T.or_many(conds), k))
+        cur = T._u(pred)
+    return cur, steps
